@@ -16,15 +16,15 @@ CHECKS = {
     "C03": ("gap-coverage query over from_cst collectors + content-flow of comment slots + segment-order rule + reader/writer table agreement",
             "Decides: every inter-token gap of every production is covered by exactly one comment route that reaches the "
             "node; every comment slot is rendered on every path; trailing trivia follows the last token; comment prefix "
-            "tables agree; concatenations list trivia in source order; every let layer's trivia slots are consumed on every path. Does not decide relative order of comments routed to different slots. Also: a flag-guarded trivia consumer is not dead code; comments split by `inline` form a leading run. Also: inline attachment is latched; one-comment slots are not reassigned in a loop; comment windows are closed at their start anchor; tuples are unpacked in return order. Also: a line comment ends its line (separator after an inline-comment suffix); comment delimiters are cut by position.", "2/C03"),
+            "tables agree; concatenations list trivia in source order; every let layer's trivia slots are consumed on every path. Does not decide relative order of comments routed to different slots. Also: a flag-guarded trivia consumer is not dead code; comments split by `inline` form a leading run. Also: inline attachment is latched; one-comment slots are not reassigned in a loop; comment windows are closed at their start anchor; tuples are unpacked in return order. Also: a line comment ends its line (separator after an inline-comment suffix); comment delimiters are cut by position. Also: both halves of split_inline_comments are consumed on every path; an unmarked comment ends the inline run.", "2/C03"),
     "C04": ("who-may-write effect analysis (write-set confinement) over the edit closure",
             "Decides that the only document state the set/rm closure may write is the addressed binding, its containers, "
             "their order mirrors and the scope wrappers; new bindings are appended, removal deletes the located object. "
-            "No memoised object is stored into a document; attrpath families are merged into one tree (decision tables of both mergers) and the by-name index designates only live bindings. Byte extents outside the target are the renderer's behaviour and are not decided here. Also: order entries matched by identity; lookup-or-create inserts into the container it searched. Also: position by index; the nested filter is part of the search; no loop-invariant test decides a per-element removal; aliases are followed in their definition-site chain. Also: one spelling of a bare attribute name.", "2/C04"),
+            "No memoised object is stored into a document; attrpath families are merged into one tree (decision tables of both mergers) and the by-name index designates only live bindings. Byte extents outside the target are the renderer's behaviour and are not decided here. Also: order entries matched by identity; lookup-or-create inserts into the container it searched. Also: position by index; the nested filter is part of the search; no loop-invariant test decides a per-element removal; aliases are followed in their definition-site chain. Also: one spelling of a bare attribute name. Also: the searches of one path walk agree on stating the nested filter.", "2/C04"),
     "C05": ("regex-AST query for bare names + sibling agreement of target resolvers + exception-escape analysis",
             "Decides: bare attribute names are full-matched against the Nix identifier alphabet and keywords are quoted; "
             "both target resolvers handle the same wrapper shapes; only KeyError/ValueError escape target resolution; "
-            "container and order-cache writes are paired on the edit paths; parentheses are stripped on every path to a class test; attrpath merge tables as in C04. Also: the callee head decides editability; a walk's result is used; a let layer is pruned only when empty. Also: creation sees inherit clauses (also inside helpers). Also: the nested filter is part of the attrpath-root search; the NPath reader decodes the documented escapes.", "2/C05"),
+            "container and order-cache writes are paired on the edit paths; parentheses are stripped on every path to a class test; attrpath merge tables as in C04. Also: the callee head decides editability; a walk's result is used; a let layer is pruned only when empty. Also: creation sees inherit clauses (also inside helpers). Also: the nested filter is part of the attrpath-root search; the NPath reader decodes the documented escapes. Also: the searches of one path walk agree on stating the nested filter.", "2/C05"),
     "C07": ("dominance (graph cut) on the error gate + dataflow of the raw text + resolver case tables",
             "Decides: the has_error gate dominates all structured parsing; the raw text is the complete parser input with "
             "no rewriting call in between and is returned unchanged; edits reject raw documents and raw values before any "
@@ -32,15 +32,15 @@ CHECKS = {
     "C08": ("interprocedural effect/ordering analysis (mutate-then-raise) + exception-escape sets",
             "Decides: no rejection point (raise or raising callee) is reachable after a document-state write in the edit "
             "closure (reviewed infeasible pairs listed by normalised statement); only KeyError/ValueError escape "
-            "set_value/remove_value; listed refusals (attrpath root, empty segment) guard the write/construction itself; only six reviewed handlers may swallow an exception; the CLI prints only after the library call returned. Also: no local is read before assignment; no unbound name / undefined self attribute / ill-fitting call; selector indexes are guarded by the depth test.", "2/C08"),
+            "set_value/remove_value; listed refusals (attrpath root, empty segment) guard the write/construction itself; only six reviewed handlers may swallow an exception; the CLI prints only after the library call returned. Also: no local is read before assignment; no unbound name / undefined self attribute / ill-fitting call; selector indexes are guarded by the depth test. Also: re-entry of the target resolver carries the visited set.", "2/C08"),
     "C09": ("orientation agreement of the five scope-layer sites + bounds-guard dominance + create/prune shape rules",
             "Decides: all producers/consumers of the layer list use the same outermost-first orientation; selector "
             "indexing is dominated by the depth guard with no intervening resize; one layer is created, exactly the "
-            "selected empty layer is pruned; a created let must sit where the grammar admits one; the depth is the leading run of `@`. Also: a walk's result is used (no lookup through the start object after the walk). Also: a layer is stored once; layers are told apart by position; every layer's trivia is consumed. Also: a scoped selector edits the body only when no layer exists; scoped edits write the layer's own lists.", "2/C09"),
+            "selected empty layer is pruned; a created let must sit where the grammar admits one; the depth is the leading run of `@`. Also: a walk's result is used (no lookup through the start object after the walk). Also: a layer is stored once; layers are told apart by position; every layer's trivia is consumed. Also: a scoped selector edits the body only when no layer exists; scoped edits write the layer's own lists. Also: the addressed layer is consulted before the outermost let when an inherited name is followed.", "2/C09"),
     "C10": ("must-pass-through on the registry, recursion-guard dominance, exit discipline and chain-orientation rules",
             "Decides: with-scopes must be distinguishable and ranked last; registry hits are identity-validated; every "
             "recursive resolution carries a visited set or a strictly shorter chain; all exits are a binding or "
-            "ResolutionError; chain producers are outer-to-inner and the scan is reversed with the found index slice; inherit sources and with environments are looked up in the prescribed chain. Also: a value stored by item assignment loses its foreign chain; continuations run in the scan iteration that found the binder. Also: only formals enter the parameter scope; chains are recomputed from the owner on every access; the setter installs a copy. Also: stored let layers keep their order through every producer; the inherit cycle marker does not depend on the scope chain.", "2/C10"),
+            "ResolutionError; chain producers are outer-to-inner and the scan is reversed with the found index slice; inherit sources and with environments are looked up in the prescribed chain. Also: a value stored by item assignment loses its foreign chain; continuations run in the scan iteration that found the binder. Also: only formals enter the parameter scope; chains are recomputed from the owner on every access; the setter installs a copy. Also: stored let layers keep their order through every producer; the inherit cycle marker does not depend on the scope chain. Also: a resolved value receives the chain of its definition site on every path.", "2/C10"),
     "C11": ("same-resolver rule for getter/setter + assign-through dominance over overwrites (sibling agreement)",
             "Decides: Identifier.value getter and setter resolve through the same function and the setter writes only the "
             "resolved binding's value; every overwrite of a located binding's value is dominated, when that value is a "
@@ -48,7 +48,7 @@ CHECKS = {
     "C12": ("reader/writer escape-table agreement + regex-AST query + canonical-comparison rule on lookups",
             "Decides: every character special in a Nix string is escaped by the writer and decoded by the NPath reader; "
             "bare names are full-matched and keywords quoted; interpolation escaping is always requested; lookups compare "
-            "names produced by the same formatter (canonical-name defect recorded); quoted-state scanners agree with Nix's lexer row by row; a quoted segment is never written bare. Also: one bare-name alphabet; every name read from a file passes the splitter; lookups use the formatted spelling; `${` stays closed while an escape is pending. Also: every returned path segment passed the parser and the name formatter.", "2/C12"),
+            "names produced by the same formatter (canonical-name defect recorded); quoted-state scanners agree with Nix's lexer row by row; a quoted segment is never written bare. Also: one bare-name alphabet; every name read from a file passes the splitter; lookups use the formatted spelling; `${` stays closed while an escape is pending. Also: every returned path segment passed the parser and the name formatter. Also: attrpath merge tables as in C04.", "2/C12"),
     "C13": ("test-order dominance (bool before int) + must-pass-through of escapers + float/negative-number format rules",
             "Decides: subclass tests precede superclass tests in coercion; non-raw strings pass the escaper on every path "
             "and raw_string is set only by parser code; coerced floats are formatted by a Nix-float formatter; tight "
@@ -64,7 +64,7 @@ CHECKS = {
     "C16": ("path conditions on main(): graph-cut dominance, dataflow of input/result, emission idiom classification",
             "Decides: OK/0 only on the path with contains_error false and input == rebuild(parse(input)); set/rm emit "
             "exactly the library result once, after it returned, with a conditional terminator, and return 0 only then; "
-            "one unmodified input channel wired to all three sub-commands. Also: Fail needs an error or a difference; positionals are not converted by argparse. Also: an exit status decided by a helper is judged together with what was written before it.", "2/C16"),
+            "one unmodified input channel wired to all three sub-commands. Also: Fail needs an error or a difference; positionals are not converted by argparse. Also: an exit status decided by a helper is judged together with what was written before it. Also: the input option belongs to the sub-parsers; the functions between main() and default=sys.stdin are not memoised.", "2/C16"),
     "C17": ("dataflow chain parse_file -> context variable -> NixPath.source_path -> resolved_path -> _follow_import",
             "Decides each link of the import-resolution chain: the path read is the path installed as context, captured "
             "into the literal at parse time, joined to the importing file's parent, passed on to parse_file; TypeError / "
